@@ -270,6 +270,10 @@ def modelStep {iv : Nat} (d : DSt iv) (op : List String) : Option (MOut iv) :=
     pure (aggOut h r s!"{outBranch r.2}/{cacheTag e i}")
   | ["has", _, h] =>
     some { d := d, ret := toString (has (d.ent h)), view := none, branch := toString (has (d.ent h)) }
+  | ["list", _] =>
+    let hs := sortBy (fun a b => decide (a < b)) ((d.ents.filter fun (_, e) => listed e).map (·.1))
+    some { d := d, ret := if hs.isEmpty then "-" else joinWith "," hs, view := none,
+           branch := toString hs.length }
   | ["restart", i] => do
     let i ← i.toNat?
     pure { d := { d with ents := d.ents.map fun (h, e) => (h, restart e i) }, ret := "ok",
